@@ -371,6 +371,9 @@ def absRun (ms : List (Micro γ)) (c : Content γ) : Content γ := ms.foldl (fun
 /-- API operations -/
 inductive Op (γ : Type) where
   | extIds (l : List Id)                                  -- the caller makes an ID array
+  /-- read accessors (`data`, `iter`, `str`, …) called on live tables: no result table, only the
+  cached format conversions they leave behind -/
+  | read (pre : List (Nat × Axis))
   | inplace (recv : Nat) (bs : List (Body γ))             -- `table = self` ; bodies ; `return table`
   /-- `pre`: read accessors that re-lay-out source tables while the arguments are computed;
   then the constructor call; then in-place bodies on the new table -/
@@ -386,6 +389,7 @@ def Op.copyThen (recv : Nat) (bs : List (Body γ)) : Op γ := .new [] [recv] cop
 /-- micro-steps of an operation when `n` tables exist -/
 def Op.micro (n : Nat) : Op γ → List (Micro γ)
   | .extIds l => [.allocIds l]
+  | .read pre => pre.map (fun p => Micro.relayout p.1 p.2)
   | .inplace r bs => bodiesMicro r bs
   | .new pre srcs F os ss post =>
     pre.map (fun p => Micro.relayout p.1 p.2) ++ .construct srcs F os ss :: bodiesMicro n post
@@ -393,6 +397,7 @@ def Op.micro (n : Nat) : Op γ → List (Micro γ)
 /-- index of the returned table -/
 def Op.result (n : Nat) : Op γ → Option Nat
   | .extIds _ => none
+  | .read _ => none
   | .inplace r _ => some r
   | .new .. => some n
 
@@ -634,6 +639,20 @@ def mkOps (h : Heap G) (ext : List Nat) (c : CallJ) : R (List (Op G)) := do
   | "construct" =>
     let r ← res0
     pure [.new [] [] (fun _ => r) (← asIdSrc ext (← fld a "obs_src")) (← asIdSrc ext (← fld a "samp_src")) []]
+  | "read" =>
+    -- which accessor caches which conversion: `data(id, axis)` / `iter(axis)` go through `_get_col` (sample)
+    -- or `_get_row` (observation); `str` walks the rows; `nnz`, `sum`, single cells, metadata do not convert
+    let t ← natF a "table"
+    let ax : Option Axis := match (← strF a "accessor") with
+      | "data_samp" | "iter_samp" => some .samp
+      | "data_obs" | "iter_obs" | "str" => some .obs
+      | _ => none
+    pure [.read (ax.map (fun x => (t, x))).toList]
+  | "ctor_from_table" =>
+    -- `Table(src.matrix_data, src.ids('observation'), src.ids(), src.metadata('observation'), src.metadata())`
+    let r ← res0
+    let src ← natF a "src"
+    pure [.new [] [src] (fun _ => r) (.ofTable src .obs) (.ofTable src .samp) []]
   | "copy" => pure [Op.copy c.recv]
   | "transpose" => let r ← res0; pure [Op.transpose c.recv (fun _ => r)]
   | "sort" => let r ← res0; pure [Op.sort c.recv (← axisF a "axis") (fun _ => r)]
@@ -644,13 +663,15 @@ def mkOps (h : Heap G) (ext : List Nat) (c : CallJ) : R (List (Op G)) := do
     let r ← res0
     let cu ← cur
     pure [Op.head c.recv (filterBody cu .obs r.obs none) (filterBody cu .samp r.samp none)]
-  | "subsample" =>
-    let r ← res0
+  | "subsample" | "generate_subsamples" =>
+    -- `generate_subsamples(table, n, axis, by_id)` yields `table.subsample(n, axis, by_id)` again and again
     let cu ← cur
     let ax ← axisF a "axis"
-    let kernel : List (Body G) := if (← boolF a "by_id") then [] else [.transform ax (fun _ => r.mat)]
-    pure [Op.subsample c.recv (kernel ++ [filterBody cu ax (r.ids ax) (some r.mat),
-                                         filterBody cu ax.other (r.ids ax.other) (some r.mat)])]
+    let byId ← boolF a "by_id"
+    pure (c.resultContents.map (fun r =>
+      let kernel : List (Body G) := if byId then [] else [.transform ax (fun _ => r.mat)]
+      Op.subsample c.recv (kernel ++ [filterBody cu ax (r.ids ax) (some r.mat),
+                                      filterBody cu ax.other (r.ids ax.other) (some r.mat)])))
   | "partition" =>
     let ax ← axisF a "axis"
     let re ← boolF a "remove_empty"
@@ -669,14 +690,25 @@ def mkOps (h : Heap G) (ext : List Nat) (c : CallJ) : R (List (Op G)) := do
   | "merge" =>
     let r ← res0
     let others ← listF asNat a "others"
-    let all := c.recv :: others
-    let conts := all.filterMap (fun i => (h.abs i).map (fun x => (i, x)))
-    -- fast path (pandas-free COO aggregation): union/union and no operand carries metadata
-    let noMd := conts.all (fun p => p.2.omd.isNone && p.2.smd.isNone)
-    let fast := noMd && (← boolF a "union_union")
-    -- general path: `data(obs_id, 'observation')` on every operand that has the observation
-    let pre := if fast then [] else
-      (conts.filter (fun p => p.2.obs.any (r.obs.contains ·))).map (fun p => (p.1, Axis.obs))
+    let uu ← boolF a "union_union"
+    let ignoreMd ← boolFD a "ignore_md" false
+    let hasMd (x : Content G) : Bool := x.omd.isSome || x.smd.isSome
+    let cu ← cur
+    let ocs := others.filterMap (fun i => (h.abs i).map (fun x => (i, x)))
+    -- top level: one COO aggregation when no operand carries metadata (or it is ignored) and both axes are unions
+    let topFast := uu && (ignoreMd || (!hasMd cu && ocs.all (fun p => !hasMd p.2)))
+    -- otherwise pairwise merges, each taking its own fast path or reading both operands row by row
+    -- (`data(obs_id, 'observation')` on every operand that has the observation)
+    let reads (x : Content G) : Bool := x.obs.any (r.obs.contains ·)
+    let pre : List (Nat × Axis) :=
+      if topFast then [] else
+        (ocs.foldl (fun (acc : List (Nat × Axis) × Bool × Bool) p =>
+          -- acc = (reads so far, merged-so-far has metadata, merged-so-far is still the receiver)
+          let fastK := uu && (ignoreMd || (!acc.2.1 && !hasMd p.2))
+          if fastK then (acc.1, false, false)
+          else (acc.1 ++ (if acc.2.2 && reads cu then [(c.recv, Axis.obs)] else []) ++
+                  (if reads p.2 then [(p.1, Axis.obs)] else []),
+                !ignoreMd && (acc.2.1 || hasMd p.2), false)) ([], hasMd cu, true)).1
     pure [Op.combine c.recv others pre (fun _ => r)]
   | "align_to" =>
     let r ← res0
@@ -756,7 +788,10 @@ def compareFacts (h0 h1 : Heap G) (ext : List Nat) (c : CallJ) : R (Option Strin
   let modelContents := snaps h1
   if modelContents.length != c.after.length then
     return some s!"live tables: model {modelContents.length} vs {c.after.length}"
-  match (modelContents.zip c.after).zipIdx.find? (fun (p, _) => p.1 != p.2) with
+  -- an in-place call that raised may have changed its receiver before raising (e.g. `errcheck` under a
+  -- non-default profile runs after the change); the property is silent about the receiver then
+  let skip : Option Nat := if c.raised && c.inplace then some c.recv else none
+  match (modelContents.zip c.after).zipIdx.find? (fun (p, i) => p.1 != p.2 && some i != skip) with
   | some (p, i) => return some s!"content of table {i}: model {(contentToJson p.1).compress} vs observed {(contentToJson p.2).compress}"
   | none => pure ()
   let mExt := ext.map h1.idArr
@@ -767,7 +802,7 @@ def compareFacts (h0 h1 : Heap G) (ext : List Nat) (c : CallJ) : R (Option Strin
     return some s!"ID array sharing: model {predIdShare h1 ext idUnknown} vs {idShare}"
   if !sameSet (predDictShare h1) dictShare then return some s!"dict sharing: model {predDictShare h1} vs {dictShare}"
   if !sameSet (predDictDup h1) dictDup then return some s!"duplicate dicts: model {predDictDup h1} vs {dictDup}"
-  if !sameSet (predKept h0 h1) kept then return some s!"buffers kept: model {predKept h0 h1} vs {kept}"
+  if !c.raised && !sameSet (predKept h0 h1) kept then return some s!"buffers kept: model {predKept h0 h1} vs {kept}"
   return none
 
 structure RunState where
